@@ -37,7 +37,7 @@ ASSUME = ["the probe peer is a configured peer that was not used before the prob
 SCENARIOS = ["hs-in", "hs-out", "req", "req2", "dwr", "dpr", "node-req"]
 CUTS = ["none", "0", "hdr-mid", "hdr-end", "avp-mid", "last-1", "full"]
 FAULTS = ["eof", "reset", "read-error", "write-error", "connect-fail"]
-OUTCOMES = ["answer", "none", "raise", "slow"]
+OUTCOMES = ["answer", "none", "raise", "slow", "very-slow"]
 
 
 def world_cfg(case):
@@ -132,6 +132,8 @@ def run_fault_phase(w, case):
                     frame = W.build_msg({"k": "REQ", "host": host, "hbh": hbh + 2, "e2e": hbh + 2})
                     if scenario == "req2":
                         frame += W.build_msg({"k": "REQ", "host": host, "hbh": hbh + 3, "e2e": hbh + 3})
+                        for extra in range(case.get("burst", 0)):
+                            frame += W.build_msg({"k": "REQ", "host": host, "hbh": hbh + 4 + extra, "e2e": hbh + 4 + extra})
                 elif scenario == "dwr":
                     frame = W.build_msg({"k": "DWR", "host": host, "hbh": hbh + 2, "e2e": hbh + 2})
                 elif scenario == "dpr":
@@ -159,7 +161,7 @@ def run_fault_phase(w, case):
             inject(w, c, fault)
         injected += 1
         w.advance(case.get("gap", 1))
-    w.advance(8)      # let slow handlers and TOO_BUSY timeouts finish
+    w.advance(15)     # let slow handlers and TOO_BUSY timeouts (5 s slot wait) finish
     return injected
 
 
@@ -255,7 +257,7 @@ def shard_main(shard, nshards, tier, scale):
                         if (f == "connect-fail") != (sc == "hs-out" and cutc == "none"):
                             if f == "connect-fail":
                                 continue
-                        if app_kind == "basic" and outcome in ("slow",):
+                        if app_kind == "basic" and outcome in ("slow", "very-slow"):
                             continue
                         if not thorough and sc in ("dwr", "dpr", "hs-in", "hs-out") and (outcome != "answer" or limit not in (0, 1)):
                             continue      # handler outcome / limit are irrelevant for these scenarios
@@ -267,6 +269,10 @@ def shard_main(shard, nshards, tier, scale):
             for reps in (1, 2, 4):
                 jobs.append({"app_kind": app_kind, "limit": limit, "outcomes": [outcome],
                              "faults": [["req2", "full", "eof"]] * reps, "gap": 3, "probe_host": "peer1.example"})
+                if app_kind == "threading":
+                    # more requests than slots, requester lost while some still wait for a slot
+                    jobs.append({"app_kind": app_kind, "limit": limit, "outcomes": [outcome], "burst": 2,
+                                 "faults": [["req2", "full", "eof"]] * reps, "gap": 1, "probe_host": "peer3.example"})
     if shard == 0:
         rec.extra["grid_jobs"] = len(jobs)
     for case in jobs[shard::nshards]:
@@ -282,6 +288,7 @@ def shard_main(shard, nshards, tier, scale):
         f = st.tuples(st.sampled_from(SCENARIOS), st.sampled_from(CUTS), st.sampled_from(FAULTS[:4]))
         return {"app_kind": kind, "limit": draw(st.integers(0, 3)) if kind == "threading" else 0,
                 "outcomes": draw(st.lists(st.sampled_from(OUTCOMES if kind == "threading" else OUTCOMES[:3]), min_size=1, max_size=4)),
+                "burst": draw(st.integers(0, 3)),
                 "faults": [list(x) for x in draw(st.lists(f, min_size=1, max_size=3))],
                 "dwell": draw(st.integers(0, 3)), "gap": draw(st.integers(0, 4)),
                 "probe_host": draw(st.sampled_from(["peer3.example", "peer1.example"])),
